@@ -111,6 +111,9 @@ func (p HopByHopExtensionHeader) Data() []byte      { return p[2:p.Len()] }    /
 // ParseHopByHopExtensions returns a map of icmp6 hop by hop extensions
 // TODO: finish parse ipv6 options
 func (p HopByHopExtensionHeader) ParseHopByHopExtensions() (ext map[int][]byte, err error) {
+	if len(p) < 2 || len(p) < p.Len() { // header shorter than its declared length
+		return nil, ErrParseFrame
+	}
 
 	data := p.Data()
 	pos := 0
